@@ -35,7 +35,7 @@ m = dict(
                baseline_off_cmd="make -C /repo test",
                source_commits=[], add_only=True),
     engines=[dict(name="simrun", path="/verif/sim", serves_properties=sorted(CHECKS),
-                  kind_free_text="deterministic simulation with fault injection: C11 harness linking the real library objects built from /repo's working tree against a simulated outside world (sim heap, abort trap, rand stream, callbacks, fiber scheduler over a shadowed stdatomic.h), seeded plans, reference-model oracles, gate + ddmin shrink + replay; Python driver for build/sharding/evidence only")],
+                  kind_free_text="deterministic simulation with fault injection: C11 harness linking the real library objects built from /repo's working tree against a simulated outside world (sim heap, abort trap, rand stream, callbacks, fiber scheduler over a shadowed stdatomic.h for the reference counts, and a preemptive fiber scheduler at basic-block granularity - trace-pc instrumented library objects - for threads that keep to their own objects), seeded plans, reference-model oracles, gate + ddmin shrink + replay; Python driver for build/sharding/evidence only")],
     checks=checks,
     notes="See DESIGN.md. Violations are gated (two fresh-process replays with identical key and event hash) before being reported; an unreproducible one exits 2 (HARNESS-NONDETERMINISM), never 1. known_findings.json lists defects found and fixed.",
     not_applicable=na,
